@@ -288,8 +288,8 @@ def custom(ctx):
     g = "8" if not thorough else "16"
     plan = []
     for comp in ("pools", "pubkey", "fc"):
-        plan.append((comp, "stress-race", ["-g", g, "-iters", "4000" if not thorough else "40000", "-seed", str(seed), "-timeout", "8000" if not thorough else "20000"]))
-        plan.append((comp, "stress-lin", ["-g", g, "-iters", "960" if not thorough else "9600", "-timeout", "8000" if not thorough else "20000"]))
+        plan.append((comp, "stress-race", ["-g", g, "-iters", "20000" if not thorough else "200000", "-seed", str(seed), "-timeout", "5000" if not thorough else "15000"]))
+        plan.append((comp, "stress-lin", ["-g", g, "-iters", "2880" if not thorough else "28800", "-timeout", "5000" if not thorough else "15000"]))
     calls = 0
     stats_all = {}
     for comp, cmd, extra in plan:
